@@ -12,6 +12,20 @@ from contracts.externals import crc_hqx
 from pyvc.contracts import T, contract
 from pyvc.spec import Fold
 
+
+# roles of the locals the loop clauses speak about (pyvc LoopSpec.roles): identified by the value they have when the
+# loop is reached, so that a renamed local is still "the accumulator" / "the LFSR state" / "the pending-escape flag"
+def _starts_as_empty_bytearray(v):
+    import z3
+    from pyvc.values import SBytes
+    if isinstance(v, bytearray):
+        return len(v) == 0
+    return isinstance(v, SBytes) and v.mutable and z3.is_app(v.t) and v.t.decl().kind() == z3.Z3_OP_SEQ_EMPTY
+
+
+def _starts_as(value):
+    return lambda v: type(v) is type(value) and v == value
+
 # --- specification constants (UG101) -----------------------------------------------------------
 FLAG, ESCAPE, XON, XOFF, SUBSTITUTE, CANCEL = 0x7E, 0x7D, 0x11, 0x13, 0x18, 0x1A
 SPEC_RESERVED = (FLAG, ESCAPE, XON, XOFF, SUBSTITUTE, CANCEL)
@@ -113,6 +127,7 @@ def _(c):
             ("len", lambda output, _i: len(output) == _i),
             ("byte", lambda rand: 0 <= rand < 256),
         ],
+        roles={"output": _starts_as_empty_bytearray, "rand": _starts_as(0x42)},
     )
     c.ensures("post.length", lambda length, result: len(result) == length)
 
@@ -156,7 +171,8 @@ def _(c):
 @contract("bellows.ash.AshProtocol._stuff_bytes", props=["C03"])
 def _(c):
     c.arg("data", T.bytes)
-    c.loop(0, invariants=[("refines_fold", lambda out, _pre: out == stuff(_pre))], fold=[stuff])
+    c.loop(0, invariants=[("refines_fold", lambda out, _pre: out == stuff(_pre))], fold=[stuff],
+           roles={"out": _starts_as_empty_bytearray})
     c.ensures("post.is_spec_stuffing", lambda data, result: result == stuff(data))
     c.returns(T.bytes)
 
@@ -175,6 +191,7 @@ def _(c):
             )
         ],
         fold=[unstuff],
+        roles={"out": _starts_as_empty_bytearray, "escaped": _starts_as(False)},
     )
     # "a frame with ... invalid escape never produces an upward delivery": an escaped byte that is not
     # a reserved value, or an ESCAPE with nothing after it, is rejected
